@@ -169,7 +169,9 @@ type CaseC15 struct {
 	Type  string   `json:"type"`
 	W     HexBytes `json:"w"`
 	Dirty *Value   `json:"dirty"`
-	Via   string   `json:"via"` // decode: receiver first decodes Dirty's encoding; fill: fields assigned directly
+	Via   string   `json:"via"`            // decode: receiver first decodes Dirty's encoding; fill: fields assigned directly
+	Part  *Value   `json:"part,omitempty"` // if set: after that, the receiver is offered only the first Cut mod len bytes of this message's encoding (a partial segment: the attempt fails half-way)
+	Cut   int      `json:"cut,omitempty"`
 }
 
 func oracleC15(c *CaseC15) *Failure {
@@ -187,6 +189,11 @@ func oracleC15(c *CaseC15) *Failure {
 		}
 	} else {
 		FillStruct(dirty, c.Dirty)
+	}
+	if c.Part != nil {
+		if enc := Render(c.Part, nil).Bytes; len(enc) > 0 {
+			_, _, _ = safely(func() error { return DecodeAny(dirty, bytes.NewBuffer(append([]byte{}, enc[:c.Cut%len(enc)]...))) })
+		}
 	}
 	db := bytes.NewBuffer(append([]byte{}, c.W...))
 	derr, dpan, _ := safely(func() error { return DecodeAny(dirty, db) })
@@ -504,6 +511,20 @@ func rpC15(types []string) (out []RProp) {
 				c.Dirty = d
 			}
 			cls = append(cls, "dirty-via:"+c.Via)
+			if rapid.IntRange(0, 2).Draw(rt, "partial") == 0 {
+				// ... and then a decode that failed half-way (a partial segment of the incoming message itself, of a
+				// near copy, or of an unrelated message) has left the receiver partly overwritten
+				switch rapid.IntRange(0, 2).Draw(rt, "partof") {
+				case 0:
+					c.Part = wv
+				case 1:
+					c.Part = relatedValue(rt, wv)
+				default:
+					c.Part, _ = GenValue(rt, tn, o)
+				}
+				c.Cut = rapid.IntRange(0, 1<<20).Draw(rt, "partcut")
+				cls = append(cls, "receiver-also-holds-a-half-decoded-message")
+			}
 			var a, b []string
 			listShape(wv, &a)
 			listShape(c.Dirty, &b)
